@@ -881,11 +881,11 @@ def run(ctx):
     ev = lib.CoqEval(["From Model Require Import Base PyVal B64 IntCodec TableTypes C13Json C13Thumb C13Sha256 C13Cases."],
                      "c13case", "c13_check", "c13_show", shard=80, max_chars=100000)
     _t2 = _time.time()
-    res = ev.run(cases, jobs=12)
-    if any((not err.strip()) or "TIMEOUT" in err for _, err in res["errors"]):
-        # a coqc killed from outside (memory pressure on a loaded machine): evaluate once more, fewer processes
+    res = ev.run(cases, jobs=12, timeout=ctx.scale(900, 3000))
+    if res["errors"] and all(not err.strip() for _, err in res["errors"]):
+        # coqc killed from outside without output (memory pressure on a loaded machine): evaluate once more, fewer processes
         ctx.notes.append("case evaluation repeated after %d killed coqc runs" % len(res["errors"]))
-        res = ev.run(cases, jobs=4)
+        res = ev.run(cases, jobs=4, timeout=ctx.scale(900, 3000))
     ctx.notes.append("wall: prove %.1fs, implementation runs %.1fs, case evaluation %.1fs (%d cases, %d chars)" % (
         _t1 - _t0, _t2 - _t1, _time.time() - _t2, len(cases), sum(len(c) for c in cases)))
     _kinds = {}
